@@ -21,7 +21,7 @@ PROPS = {
         "level_text": "BankKeeper's send = burn;mint over cw-utils NativeBalance (first-match add, sorted insert, checked subtract, normalize) is transcribed into Lean with Nat amounts and proved, for every reachable ledger and every coin list (repeated denoms, zero coins, empty lists, self-transfers, never-seen recipients): stored balances stay normalised; a transfer moves exactly the per-denom total from sender to recipient, changes no other account and no supply; burn/mint move one balance and the supply by exactly the total; send/burn fail iff no coin is positive or some denom's total exceeds the payer's balance (so a self-transfer beyond the balance fails), mint fails iff no coin is positive; Balance = entry of AllBalances, Supply = sum of Balance over all accounts; after any history balance + debits = credits + initial. The transcription is tied to /repo by running the real App and the model on the same generated histories and by evaluating the same arithmetic with python ints on the implementation's own query answers.",
         "level_note": "Trusted: Lean kernel + propext/Classical.choice/Quot.sound; the hand transcription of bank.rs and cw-utils balance.rs, validated only by the generator-bounded correspondence; Uint128 overflow excluded by the quantifier (amounts < 2^100); storage map and JSON codec of balances modelled as a sorted association list; bech32 address validation not modelled (declared addresses). Contract-initiated transfers (funds on execute/instantiate, bank sub-messages) reach the same BankKeeper::send through the router; that routing is covered by the wasm engine's correspondence (C01-C05), not by this slice.",
         "props_module": "CwMt.Props.C09",
-        "slices": [{"name": "bank", "quick": 20000, "thorough": 100000, "predicate": "pred_bank", "nontrivial": "nt_bank"}],
+        "slices": [{"name": "bank", "quick": 15000, "thorough": 150000, "predicate": "pred_bank", "nontrivial": "nt_bank"}],
         "rule": "histories of 6-25 (thorough 10-40) ops over 4 addr_make addresses (payers biased to two of them, so the others are often never-seen recipients), "
                 "3 denoms (one a prefix of another, not in alphabetical order): genesis init_balance, BankSudo::Mint, BankMsg::Send via App::execute and via send_tokens, BankMsg::Burn, "
                 "about 30% self-transfers; coin lists of 0-5 coins with duplicate denoms and 12% zero amounts; amounts 1-60, 3% near 2^100; debit amounts steered to the boundary "
